@@ -70,6 +70,7 @@ def judgeUpSeg (c0 : Nat) (body : Bytes) (t : Bool) (size : Nat) (acc : Bytes) :
     else if segLast c0 then
       .done (if (acc ++ seg).length = size then .ok (acc ++ seg) else .protocol "announced size differs from data")
     else if seg.length = 0 then .bad "empty segment that is not the last"
+    else if size ≤ (acc ++ seg).length then .bad "all announced bytes delivered but the segment is not flagged as the last"
     else .more (acc ++ seg)
 
 /-- upload segments: request with alternating toggle until the server flags the last one -/
@@ -165,5 +166,145 @@ def refDownload (s : Srv) (n : Node) (idx sub : Nat) (data : Bytes) (expedited :
       | none =>
         if r != 0x60 :: (mux idx sub ++ [0, 0, 0, 0]) then (o.srv, o.node, .protocol "bad download response")
         else downSegT (chunks ++ List.replicate (data.length + 1) 7) o.srv o.node idx sub false data
+
+/-! ## client styles
+
+The client above makes one particular choice wherever CiA 301 leaves one.  A conformant client
+has more freedom, and a server has to serve every such client alike:
+
+* a download may be initiated in four ways: expedited with size indication (`e = 1, s = 1`,
+  `0x23 | n << 2`), expedited without (`e = 1, s = 0`, `0x22`: "d contains unspecified number of
+  bytes to be downloaded" — all four data bytes are the value), segmented with the size in `d`
+  (`0x21`) and segmented without (`0x20`, `d` reserved);
+* the bits of a command byte that the figures mark `x` / the `n` field where it is "not valid",
+  the reserved bytes of initiate / segment requests and the bytes of a frame that "do not contain
+  data" carry no information: `Rsv` says what this client writes there.
+
+`refUploadS` / `refDownloadS` are the strict client again, with these choices as arguments. -/
+
+inductive DownStyle where
+  | expSized      -- 0x23 | n << 2, 1..4 bytes
+  | expUnsized    -- 0x22, exactly the four data bytes
+  | segSized      -- 0x21, size announced
+  | segUnsized    -- 0x20, size not announced
+deriving Repr, DecidableEq
+
+/-- what the client writes where the server has to ignore it -/
+structure Rsv where
+  bits : Nat          -- bit k of `bits % 32` goes to bit k of a command byte where that bit is unused
+  fill : Bytes        -- prefix of this goes to reserved / unused data bytes
+
+def fillN (v : Rsv) (k : Nat) : Bytes := padTo k (v.fill.take k)
+
+/-- unused bits 0..4 of an initiate upload request -/
+def upInitReqS (v : Rsv) : Nat := 0x40 + v.bits % 32
+/-- unused bits 0..3 of an upload segment request -/
+def segUpReqS (v : Rsv) (t : Bool) : Nat := 0x60 + tbit t + v.bits % 16
+/-- bits 2..4 (`x` and the `n` field where it is not valid) of an initiate download request -/
+def rsvXN (v : Rsv) : Nat := v.bits % 32 / 4 * 4
+/-- bit 4 (`x`) alone, where `n` is valid -/
+def rsvX (v : Rsv) : Nat := v.bits % 32 / 16 * 16
+def expDownReqS (v : Rsv) (len : Nat) : Nat := 0x23 + (4 - len) * 4 + rsvX v
+
+/-- the style that can carry a payload of this length: expedited-with-size needs 1..4 bytes,
+    expedited-without-size exactly 4; otherwise the segmented style of the same size indication -/
+def effStyle (st : DownStyle) (len : Nat) : DownStyle :=
+  match st with
+  | .expSized => if 1 ≤ len ∧ len ≤ 4 then .expSized else .segSized
+  | .expUnsized => if len = 4 then .expUnsized else .segUnsized
+  | .segSized => .segSized
+  | .segUnsized => .segUnsized
+
+def DownStyle.isExp : DownStyle → Bool
+  | .expSized => true
+  | .expUnsized => true
+  | _ => false
+
+/-- the initiate download request of each style -/
+def downInitFrame (v : Rsv) (st : DownStyle) (idx sub : Nat) (data : Bytes) : Bytes :=
+  match st with
+  | .expSized => expDownReqS v data.length :: (mux idx sub ++ (data ++ fillN v (4 - data.length)))
+  | .expUnsized => (0x22 + rsvXN v) :: (mux idx sub ++ data)
+  | .segSized => (0x21 + rsvXN v) :: (mux idx sub ++ leBytes 4 data.length)
+  | .segUnsized => (0x20 + rsvXN v) :: (mux idx sub ++ fillN v 4)
+
+/-- upload segments, styled requests -/
+def upSegS (v : Rsv) : Nat → Srv → Node → Nat → Nat → Nat → Bool → Bytes → Srv × Node × XRes
+  | 0, s, n, _, _, _, _, _ => (s, n, .protocol "server never flagged the last segment")
+  | fuel + 1, s, n, idx, sub, size, t, acc =>
+    let o := srvStep s n (segUpReqS v t :: fillN v 7)
+    match oneResp o with
+    | none => (o.srv, o.node, .protocol "not exactly one 8-byte response")
+    | some r =>
+      match asAbort r idx sub with
+      | some x => (o.srv, o.node, x)
+      | none =>
+        match judgeUpSeg (r.headD 0) (r.drop 1) t size acc with
+        | .bad why => (o.srv, o.node, .protocol why)
+        | .done x => (o.srv, o.node, x)
+        | .more acc' => upSegS v fuel o.srv o.node idx sub size (!t) acc'
+
+/-- a complete strict upload, styled requests -/
+def refUploadS (v : Rsv) (s : Srv) (n : Node) (idx sub : Nat) : Srv × Node × XRes :=
+  let o := srvStep s n (upInitReqS v :: (mux idx sub ++ fillN v 4))
+  match oneResp o with
+  | none => (o.srv, o.node, .protocol "not exactly one 8-byte response")
+  | some r =>
+    match asAbort r idx sub with
+    | some x => (o.srv, o.node, x)
+    | none =>
+      match judgeUpInit r idx sub with
+      | .bad why => (o.srv, o.node, .protocol why)
+      | .done d => (o.srv, o.node, .ok d)
+      | .segmented size => upSegS v (size / 7 + 2) o.srv o.node idx sub size false []
+
+/-- download segments, the bytes after the data filled from `v` -/
+def downSegS (v : Rsv) : List Nat → Srv → Node → Nat → Nat → Bool → Bytes → Srv × Node × XRes
+  | [], s, n, _, _, _, _ => (s, n, .protocol "chunk list exhausted")
+  | k :: ks, s, n, idx, sub, t, rem =>
+    let k' := min (max k 1) 7
+    let chunk := rem.take k'
+    let rest := rem.drop k'
+    let o := srvStep s n (segDownReq t chunk.length rest.isEmpty :: (chunk ++ fillN v (7 - chunk.length)))
+    match oneResp o with
+    | none => (o.srv, o.node, .protocol "not exactly one 8-byte response")
+    | some r =>
+      match asAbort r idx sub with
+      | some x => (o.srv, o.node, x)
+      | none =>
+        if r != (0x20 + tbit t) :: List.replicate 7 0 then
+          (o.srv, o.node, .protocol "bad segment download response")
+        else if rest.isEmpty then (o.srv, o.node, .ok [])
+        else downSegS v ks o.srv o.node idx sub (!t) rest
+
+/-- a complete strict download in the given style -/
+def refDownloadS (v : Rsv) (s : Srv) (n : Node) (idx sub : Nat) (data : Bytes) (st : DownStyle)
+    (chunks : List Nat) : Srv × Node × XRes :=
+  let st' := effStyle st data.length
+  let o := srvStep s n (downInitFrame v st' idx sub data)
+  match oneResp o with
+  | none => (o.srv, o.node, .protocol "not exactly one 8-byte response")
+  | some r =>
+    match asAbort r idx sub with
+    | some x => (o.srv, o.node, x)
+    | none =>
+      if r != 0x60 :: (mux idx sub ++ [0, 0, 0, 0]) then (o.srv, o.node, .protocol "bad download response")
+      else if st'.isExp then (o.srv, o.node, .ok [])
+      else downSegS v (chunks ++ List.replicate (data.length + 1) 7) o.srv o.node idx sub false data
+
+/-- A request frame that can make the server call `set_data`: a download segment with the
+    last-segment flag, or an expedited initiate download.  No other frame transfers a value. -/
+def mayWrite (f : Bytes) : Bool :=
+  match f with
+  | [] => false
+  | c :: _ => (c &&& 0xE0 == 0x00 && c &&& 0x01 != 0) || (c &&& 0xE0 == 0x20 && c &&& 0x02 != 0)
+
+/-- strict uploads of a list of addresses, one after the other -/
+def refUploadsS (v : Rsv) (s : Srv) (n : Node) : List (Nat × Nat) → Srv × Node × List XRes
+  | [] => (s, n, [])
+  | (i, j) :: r =>
+    let (s1, n1, x) := refUploadS v s n i j
+    let (s2, n2, xs) := refUploadsS v s1 n1 r
+    (s2, n2, x :: xs)
 
 end Canopen.Spec
